@@ -401,7 +401,7 @@ def c08(tier):
                "documented refusal is a violation, the traceback is in the replay file.")
     run_wp(ck, ["map_block_trial_ranges", "applies_to_trial", "extract_components", "compute_jth_combination", "compute_jth_inversion_sequence"],
            budget_ms(tier), prefix="C08.safety.")
-    ds = SC.design_space(tier, seed(), random_n=80 if tier == "quick" else 600)
+    ds = SC.design_space(tier, seed(), random_n=80 if tier == "quick" else 600, continuous=True)
     strats = ["IterateSATGen", "RandomGen"] + (["CMSGen", "UniGen"] if tier == "thorough" else [])
     res = SC.run(ds, strats, dict(n=3, space_limit=10**7), timeout=45)
     byname = {d["name"]: d for d in ds}
